@@ -199,3 +199,41 @@ def stmt_key(f: FuncInfo, node: ast.AST, maxlen: int = 90) -> str:
     if len(txt) > maxlen:
         txt = txt[:maxlen]
     return "%s|%s" % (short(f.qname), txt)
+
+
+def _assigned_names(st: ast.AST):
+    out = []
+    tg = []
+    if isinstance(st, ast.Assign):
+        tg = list(st.targets)
+    elif isinstance(st, (ast.AugAssign, ast.AnnAssign)):
+        tg = [st.target]
+    elif isinstance(st, (ast.For, ast.AsyncFor)):
+        tg = [st.target]
+    elif isinstance(st, ast.withitem) and st.optional_vars is not None:
+        tg = [st.optional_vars]
+    while tg:
+        t = tg.pop()
+        if isinstance(t, (ast.Tuple, ast.List)):
+            tg.extend(t.elts)
+        elif isinstance(t, ast.Starred):
+            tg.append(t.value)
+        elif isinstance(t, ast.Name):
+            out.append(t.id)
+    return out
+
+
+def reaching_defs(ctx: "Ctx", f: FuncInfo, use: ast.AST, name: str):
+    """Assignment statements to local `name` that reach the evaluation of `use` (a node inside f's body).
+    Returns (list of defining AST statements, reaches_from_entry: bool)."""
+    g = ctx.cfg(f)
+    use_nodes = g.stmt_nodes_containing(use)
+    defs = [n for n in g.nodes if n.ast is not None and n.kind in ("stmt", "iter", "with_enter") and name in _assigned_names(n.ast)]
+    def_ids = {n.id for n in defs}
+    use_ids = {n.id for n in use_nodes}
+    out = []
+    for d in defs:
+        if g.reach([d.id], lambda n: n.id in use_ids, avoid=lambda n: n.id in def_ids and n.id not in use_ids) is not None:
+            out.append(d.ast)
+    from_entry = g.reach([g.entry.id], lambda n: n.id in use_ids, avoid=lambda n: n.id in def_ids and n.id not in use_ids) is not None
+    return out, from_entry
